@@ -301,6 +301,21 @@ def native_fallback(p, pid, reason, seed, tier):
                         'payload': dict(drv['sweep'], only=res.get('witness'))}}
       write_json(path, rec)
       return rec
+  # whatever part of the script did not get to register its drivers before the build stopped: sweep every checker of the
+  # property's native driver
+  script = f'native/{pid}.py'
+  if os.path.exists(os.path.join(VERIF, script)):
+    res = run_native(script, {'mode': 'sweep', 'fn': '*', 'seed': seed, 'tier': tier}, timeout=900)
+    if res.get('failed'):
+      fn = (res.get('witness') or {}).get('fn', 'all')
+      path = os.path.join(VERIF, 'replays', pid, 'undecided_' + re.sub(r'[^A-Za-z0-9_.-]+', '_', str(fn)) + '.json')
+      rec = {'property': pid, 'obligation': f'(no VC: {reason})', 'kind': 'native-search',
+             'detail': 'obligations could not be generated; failing input found by the bounded native search (all checkers of '
+                       'the property)',
+             'native': res, 'path': path,
+             'driver': {'script': script, 'payload': {'mode': 'sweep', 'fn': fn, 'only': res.get('witness')}}}
+      write_json(path, rec)
+      return rec
   return None
 
 
